@@ -413,6 +413,41 @@ def r5_single_evaluator(ctx: Ctx) -> None:
 
 
 
+def symbol_values_stored_verbatim(ctx: Ctx) -> None:
+    """`identifiers denote their symbol's value`: Scope.add_symbol puts the value it is given into the table, unchanged, under the
+    name it is given; Scope.add_label stores the address's logical value."""
+    from ..facts import assign_facts, show as show_facts
+
+    fn = ctx.repo.func("a816.symbols", "Scope.add_symbol")
+    name, value = fn.params()[1], fn.params()[2]
+    n = 0
+    for table in ("self.symbols", "self.code_symbols"):
+        facts = assign_facts(fn, f"{table}[{name}]")
+        others = [s for s in walk_no_nested(fn.node) if isinstance(s, (ast.Assign, ast.AugAssign)) and any(
+            isinstance(t, ast.Subscript) and unparse(t.value) == table and unparse(t.slice) != name for t in (s.targets if isinstance(s, ast.Assign) else [s.target]))]
+        for o in others:
+            ctx.fail(f"Scope.add_symbol:{unparse(o)[:50]}", f"stores under a key other than the symbol's name `{name}`")
+        for v, _c in facts:
+            n += 1
+            tree = ast.parse(v, mode="eval").body
+            arith = any(isinstance(x, (ast.BinOp, ast.UnaryOp)) or (isinstance(x, ast.Call) and call_name(x) in ("abs", "min", "max", "round", "divmod", "ctypes.c_int32", "ctypes.c_uint32"))
+                        for x in ast.walk(tree))
+            if v in (value, f"int({value})"):
+                ctx.ok(f"Scope.add_symbol:{table}[{name}]", "the table holds the value given, unchanged")
+            elif arith and value in {x.id for x in ast.walk(tree) if isinstance(x, ast.Name)}:
+                ctx.fail(f"Scope.add_symbol:{table}[{name}]", f"the table holds `{v}`, not the value given: a masked, clamped or converted value is what every later use of the "
+                         "identifier evaluates to")
+            else:
+                raise AnalysisError(f"Scope.add_symbol: stored value `{v}` not modelled")
+    ctx.count("symbol_stores", n)
+    ctx.floor("symbol_stores", 2)
+
+
+def r6_identifier_values(ctx: Ctx) -> None:
+    """an identifier evaluates to what its definition evaluated to: the symbol table stores values unchanged"""
+    symbol_values_stored_verbatim(ctx)
+
+
 def rb_binding_agreement(ctx: Ctx) -> None:
     from ..ownership import binding_agreement
 
@@ -426,4 +461,4 @@ def rm_no_process_lifetime_results(ctx: Ctx) -> None:
     state_rule(ctx)
 
 
-RULES = [r1_precedence_order, r2_associativity, r3_evaluation_dispatch, r4_literal_bases, r5_single_evaluator, rb_binding_agreement, rm_no_process_lifetime_results]
+RULES = [r1_precedence_order, r2_associativity, r3_evaluation_dispatch, r4_literal_bases, r5_single_evaluator, r6_identifier_values, rb_binding_agreement, rm_no_process_lifetime_results]
